@@ -1,13 +1,18 @@
 #!/bin/bash
-# usage: sens.sh <patch.diff> <ID> [<ID>...]   apply a seeded change to /repo, run quick checks, undo it
+# usage: sens.sh <patch.diff> <ID> [<ID>...]
+# Applies a seeded change to a scratch worktree of /repo (never to /repo itself), rebuilds the
+# simulation binary from it in a separate shadow/target directory and runs the quick checks.
 patch="$1"; shift
-cd /repo || exit 2
-if ! git diff --quiet; then echo "/repo has uncommitted changes"; exit 2; fi
-git apply "$patch" || { echo "patch does not apply"; exit 2; }
-trap 'git -C /repo checkout -- . ; git -C /repo clean -fdq src' EXIT
+WT=/tmp/wt/sens_fg
+if [ ! -d "$WT" ]; then git -C /repo worktree add -q --detach "$WT" HEAD || exit 2; fi
+git -C "$WT" checkout -q --detach "$(git -C /repo rev-parse HEAD)" 2>/dev/null
+git -C "$WT" checkout -q -- . ; git -C "$WT" clean -fdq src
+git -C "$WT" apply "$patch" || { echo "patch does not apply"; exit 2; }
+mkdir -p /tmp/sens_out; cp /verif/known-findings.jsonl /tmp/sens_out/
 cd /verif
 for id in "$@"; do
-  out=$(ZCHECK_VERIF=/tmp/sens_out ./check "$id" --tier quick 2>&1)
+  out=$(ZCHECK_SLOT=fg ZSIM_REPO="$WT" ZSIM_SHADOW=/tmp/sens_fg_shadow CARGO_TARGET_DIR_OVERRIDE=/tmp/sens_fg_target ZCHECK_VERIF=/tmp/sens_out ./check "$id" --tier quick 2>&1)
   code=$?
   echo "== $id exit=$code $(echo "$out" | grep -E 'VIOLATION|oracle:|witness:|HARNESS' | head -4 | tr '\n' ' ' | cut -c1-400)"
 done
+git -C "$WT" checkout -q -- .
